@@ -355,6 +355,8 @@ type lockstep struct {
 	curClear []int    // id of the Clear call the thread is in (-1 = none)
 	pendAcq  []int    // id whose bit the thread's GetStream has set, call not yet returned (-1 = none)
 	negPanic []int    // ids of the Clear calls that panicked 'negative' during the current scheduling decision
+	lpAcq    []int    // linearization monitor: id whose bit the thread's current GetStream call has set (-1 = none yet)
+	lpRel    []bool   // linearization monitor: the thread's current Clear call has cleared the bit of its id
 	c0       bool     // excluded case 1 has happened: Clear(0) called
 	excl     bool     // excluded case 1 or 2 (a Clear cleared the bit of an id whose GetStream had not returned yet)
 	nRogue   int
@@ -559,6 +561,63 @@ func bitsOf(ws []uint64, f func(id int)) {
 	}
 }
 
+// linearization monitor (theorems C08_linearizable_partial, C08_lp_answers; no client protocol, Clear(0) excluded),
+// evaluated on the bitset before / after every scheduling decision in which at most one call returned: the only
+// bits a decision of thread t may change are ONE bit set while t is inside a GetStream call that has not set a
+// bit yet (the linearization point of that call: it must then return exactly that id) and the bit of x cleared
+// while t is inside Clear(x) (once: that call must then return true); a GetStream that returns an id / a Clear
+// that returns true has passed its linearization point; a Clear(x) that returns false has not cleared anything and
+// the bit of x was clear in front of the decision that made it return.
+func (ls *lockstep) linearization(t int, wasGet bool, wasClear int, before, after []uint64, rets []string) {
+	if ls.c0 || len(rets) > 1 || len(before) != len(after) {
+		ls.lpAcq[t], ls.lpRel[t] = -1, false
+		return
+	}
+	set, clr := make([]uint64, len(after)), make([]uint64, len(after))
+	for w := range after {
+		set[w], clr[w] = after[w]&^before[w], before[w]&^after[w]
+	}
+	bitsOf(set, func(id int) {
+		if !wasGet || ls.lpAcq[t] >= 0 {
+			ls.monitor += fmt.Sprintf(" MONITOR:bit-of-id-%d-set-outside-the-linearization-point-of-a-GetStream", id)
+		} else {
+			ls.lpAcq[t] = id
+		}
+	})
+	bitsOf(clr, func(id int) {
+		if wasClear != id || ls.lpRel[t] {
+			ls.monitor += fmt.Sprintf(" MONITOR:bit-of-id-%d-cleared-outside-the-linearization-point-of-a-Clear-of-it", id)
+		} else {
+			ls.lpRel[t] = true
+		}
+	})
+	if len(rets) == 0 {
+		return
+	}
+	r := rets[0]
+	switch {
+	case wasGet && strings.HasSuffix(r, ":t"):
+		if id, _ := strconv.Atoi(strings.TrimSuffix(r, ":t")); id != ls.lpAcq[t] {
+			ls.monitor += fmt.Sprintf(" MONITOR:GetStream-returned-%d-but-its-linearization-point-set-the-bit-of-%d", id, ls.lpAcq[t])
+		}
+	case wasGet:
+		if ls.lpAcq[t] >= 0 {
+			ls.monitor += fmt.Sprintf(" MONITOR:GetStream-answered-%s-after-setting-the-bit-of-%d", r, ls.lpAcq[t])
+		}
+	case wasClear >= 0 && (r == "T" || r == "crash:negative"):
+		if !ls.lpRel[t] {
+			ls.monitor += fmt.Sprintf(" MONITOR:Clear-%d-answered-%s-without-having-cleared-its-bit", wasClear, r)
+		}
+	case wasClear >= 0 && r == "F":
+		if ls.lpRel[t] {
+			ls.monitor += fmt.Sprintf(" MONITOR:Clear-%d-answered-F-after-having-cleared-its-bit", wasClear)
+		} else if w := wasClear / 64; w < len(before) && before[w]>>(63-uint(wasClear%64))&1 == 1 {
+			ls.monitor += fmt.Sprintf(" MONITOR:Clear-%d-answered-F-while-its-bit-was-set", wasClear)
+		}
+	}
+	ls.lpAcq[t], ls.lpRel[t] = -1, false
+}
+
 // step: one scheduling decision, thread t runs until its next hand-over; returns the observation
 // `<t>:[<ret>:…]y<k>` (parked in front of yield point k) or `<t>:[<ret>:…]d` (script finished).
 func (ls *lockstep) step(t int) string {
@@ -611,6 +670,7 @@ func (ls *lockstep) step(t int) string {
 			}
 		}
 	}
+	ls.linearization(t, wasGet, wasClear, before, after, ev.rets)
 	for _, id := range ls.negPanic {
 		if !ls.excl {
 			ls.monitor += fmt.Sprintf(" MONITOR:negative-streams-inuse-panic-in-Clear-%d", id)
@@ -681,7 +741,7 @@ func runConcX(proto, k int, pre []string, scripts [][]string, sched []int, choos
 	}
 	ls = &lockstep{g: g, k: k, resume: make([]chan struct{}, k), events: make(chan event), rets: make([][]string, k),
 		done: make([]bool, k), mine: make([][]int, k), held: map[int]bool{}, getFree: make([][]uint64, k), gids: map[uint64]int{},
-		got: map[int]int{}, rel: map[int]int{}, w0: wordsNow(g), at: make([]int, k), curClear: make([]int, k), pendAcq: make([]int, k),
+		got: map[int]int{}, rel: map[int]int{}, w0: wordsNow(g), at: make([]int, k), curClear: make([]int, k), pendAcq: make([]int, k), lpAcq: make([]int, k), lpRel: make([]bool, k),
 		inGet: make([]bool, k), nsteps: make([]int, k)}
 	ls.cur = append([]uint64{}, ls.w0...)
 	ls.nw = len(ls.w0)
@@ -691,7 +751,7 @@ func runConcX(proto, k int, pre []string, scripts [][]string, sched []int, choos
 	}
 	for t := 0; t < k; t++ {
 		ls.resume[t] = make(chan struct{})
-		ls.curClear[t], ls.pendAcq[t] = -1, -1
+		ls.curClear[t], ls.pendAcq[t], ls.lpAcq[t] = -1, -1, -1
 	}
 	for _, w := range pre {
 		if w == "c0" {
